@@ -336,6 +336,18 @@ func (w *c17Worker) Run(path []LOp) (bfs.Outcome, error) {
 			// An expired entry that has not been collected yet is part of the state: entries of different age merge only
 			// if the implementation treats them alike, which is what is being checked.
 			desc += fmt.Sprintf(" advanced=%s", models[i].tableAge)
+			// ... and so is the age the implementation itself counts for the entry (in steps of ten minutes; the real time a
+			// path takes is milliseconds): two histories with the same advances but another idea of when the clock
+			// started are different states.
+			for _, vs := range w.node.Rig.RealProcess.VerifSessions() {
+				if vs.Account == n {
+					age := vs.Age
+					if age > 4*c17Timeout {
+						age = 4 * c17Timeout
+					}
+					desc += fmt.Sprintf(" counted=%dm", int(age/(10*time.Minute))*10)
+				}
+			}
 		}
 		var have []uint64
 		for id := range models[i].contributed {
